@@ -3,7 +3,7 @@
    the persistence calls comes from Gen/CrashShape.v, regenerated from the Go sources on every
    run; the theorems about histories are stated over runs built from that shape. *)
 From Coq Require Import ZArith List Bool.
-From DV Require Import Model.Crash Proofs.CrashProofs Gen.CrashShape.
+From DV Require Import Model.Crash Proofs.CrashProofs Gen.CrashShape Gen.SaveFlags.
 Import ListNotations.
 Open Scope Z_scope.
 
@@ -16,6 +16,18 @@ Open Scope Z_scope.
 Theorem C13_shape_obligation : crash_shape = expected_shape.
 Proof. reflexivity. Qed.
 Print Assumptions C13_shape_obligation.
+
+(* obligation tied to the source (key.Save and its two writers): a target that is absent or a
+   regular file - the group file, the share file and the key pair files of the node folder are
+   nothing else - is written aside completely (Encode, Sync, Close) and renamed into place; the
+   writer that truncates its target in place is reachable only for a target that exists and is NOT
+   a regular file (symlink, device such as /dev/stdout, pipe: `--out` of the CLI), which is not
+   part of the node folder this model is about *)
+Theorem C13_key_files_replaced_atomically :
+  save_in_place = false /\ save_atomic_rename = true /\ save_in_place_only_non_regular = true /\
+  sh_save_in_place crash_shape = save_in_place.
+Proof. repeat split; reflexivity. Qed.
+Print Assumptions C13_key_files_replaced_atomically.
 
 (* ---------------- chain store ---------------- *)
 
